@@ -341,6 +341,8 @@ def small_texts(kind):
         t += X.termsums(3, ["2", "-3", "x", "4x", "x^2", "y"], ["+", "*", "-"])
         t += X.flat_chains(3, ["2", "x", "3x", "x^2", "y", "-3"], ("+", "*"))
         t += X.unary_wrapped_groupings()[::5]
+        # folds that create non-finite constants next to terms the other rules look at
+        t += ["0^-3 + x", "x + 0^-1", "(0^-3 + 2) * x", "2 / 0 + x", "x * (3 / 0)", "0^-3 + 2", "(2 - 2)^-3 + -3", "y + (3 - 3)^-3"]
         return t
     t = [x for x in X.repo_inputs(REPO) if "=" in x and len(x) <= 30]
     t += X.equations(["2", "-3", "x", "2x", "x^2", "3y"], ("+", "-", "*"))
